@@ -358,7 +358,7 @@ pub fn var_reference<F: Fl>(xs: &[F], ws: &[F], ddof: F) -> Option<VarRef> {
 }
 
 /// exact central moment of order p: (1/n) sum (x - xbar)^p, and A_k = (1/n) sum |x - xbar|^k
-fn moment_reference<F: Fl>(xs: &[F], p: u32) -> (f64, f64, f64) {
+pub fn moment_reference<F: Fl>(xs: &[F], p: u32) -> (f64, f64, f64) {
     let n = xs.len();
     let nn = Dy::from_i128(n as i128);
     let s = sum_dy(xs.iter().map(|&x| dy(x)));
@@ -380,7 +380,7 @@ fn moment_reference<F: Fl>(xs: &[F], p: u32) -> (f64, f64, f64) {
     (ratio(&mp, &den_p), ratio(&ap, &den_p), if p >= 1 { ratio(&ap1, &den_p1) } else { 1.0 })
 }
 
-fn moment_tol<F: Fl>(n: usize, p: u32, a_p: f64, a_p1: f64, maxabs: f64) -> f64 {
+pub fn moment_tol<F: Fl>(n: usize, p: u32, a_p: f64, a_p1: f64, maxabs: f64) -> f64 {
     2.0 * (2.0 * n as f64 + 4.0 * p as f64 + 8.0) * F::U * (a_p + p as f64 * maxabs * a_p1) + F::TINY
 }
 
@@ -726,3 +726,25 @@ pub fn replayers_c07() -> Vec<(&'static str, ReplayFn)> {
 
 #[allow(dead_code)]
 fn _u(_: ArrayViewD<'_, f64>) {}
+
+/// Budgets of skewness and kurtosis (first-order propagation, DESIGN.md appendix C);
+/// None when the second moment does not resolve.
+pub fn skew_kurt_tol<F: Fl>(data: &[F]) -> Option<(f64, f64)> {
+    let n = data.len();
+    let maxabs = data.iter().fold(0.0f64, |a, x| a.max(x.to64().abs()));
+    let (mu2, a2, a1) = moment_reference(data, 2);
+    let d2 = moment_tol::<F>(n, 2, a2, a1, maxabs);
+    if !(mu2 > 0.0 && d2 <= mu2 / 1024.0) {
+        return None;
+    }
+    let (mu3, a3, a2b) = moment_reference(data, 3);
+    let d3 = moment_tol::<F>(n, 3, a3, a2b, maxabs);
+    let (mu4, a4, a3b) = moment_reference(data, 4);
+    let d4 = moment_tol::<F>(n, 4, a4, a3b, maxabs);
+    let skew = mu3 / mu2.powf(1.5);
+    let kurt = mu4 / (mu2 * mu2);
+    Some((
+        d3 / mu2.powf(1.5) + 1.5 * mu3.abs() * d2 / mu2.powf(2.5) + 8.0 * F::U * skew.abs() + 8.0 * F::U,
+        d4 / (mu2 * mu2) + 2.0 * mu4.abs() * d2 / (mu2 * mu2 * mu2) + 8.0 * F::U * kurt.abs(),
+    ))
+}
